@@ -68,17 +68,17 @@ func main() {
 		}
 	}
 	flag.CommandLine.Parse(fl)
-	if *list {
-		for _, s := range specs() {
-			fmt.Println(s.ID, s.Pkg)
-		}
-		return
-	}
 	if v := os.Getenv("VERIF_DIR"); v != "" {
 		verifDir = v
 	}
 	if v := os.Getenv("VERIF_REPO"); v != "" {
 		repoDir = v
+	}
+	if *list {
+		for _, s := range specs() {
+			fmt.Println(s.ID, s.Pkg)
+		}
+		return
 	}
 	var spec *Spec
 	for _, s := range specs() {
@@ -137,7 +137,11 @@ func buildOverlay(spec *Spec, scratch string) string {
 		}
 	}
 	// hide the repository's own tests of the harness package (and of extra dirs)
-	for _, d := range append([]string{spec.Pkg}, spec.HideTests...) {
+	hide := append([]string{}, spec.HideTests...)
+	if !spec.KeepTests {
+		hide = append(hide, spec.Pkg)
+	}
+	for _, d := range hide {
 		tests, _ := filepath.Glob(filepath.Join(repoDir, d, "*_test.go"))
 		for _, t := range tests {
 			replace[t] = ""
